@@ -3167,8 +3167,10 @@ BD_Shape<T>::get_limiting_shape(const Constraint_System& cs,
     dimension_type num_vars = 0;
     dimension_type i = 0;
     dimension_type j = 0;
-    // Constraints that are not bounded differences are ignored.
-    if (BD_Shape_Helpers::extract_bounded_difference(c, num_vars, i, j, coeff)) {
+    // Constraints that are not bounded differences are ignored
+    // (as well as trivial constraints, which have no variable at all).
+    if (BD_Shape_Helpers::extract_bounded_difference(c, num_vars, i, j, coeff)
+        && num_vars != 0) {
       // Select the cell to be modified for the "<=" part of the constraint,
       // and set `coeff' to the absolute value of itself.
       const bool negative = (coeff < 0);
